@@ -179,6 +179,7 @@ func runC14(c *Ctx, r *Report) {
 	c14r13(c, r)
 	c14r14(c, r)
 	c14r15(c, r)
+	c14r16(c, r)
 	c20r11(c, r) // no preview child survives: the watcher takes a kill request also during the grace period
 }
 
